@@ -15,3 +15,9 @@ package runtime
 //@ | errchain.PlError.PosChain, elemsof(errchain.Position)
 
 //@ framesweep[C16,C15] runWrites * -*Check -InitCtxForCheck -(*Script).Check -(*Task).SetCallRef -init
+
+// Lists and maps are mutable run-time values, and the frame above lets a run write the contents of any
+// list or map: it is only sound for C15 / C16 because every list or map a run gets hold of was made
+// during that run.  The literal evaluators are where lists and maps are made: each evaluation yields
+// a new object, never one kept on the syntax tree (or anywhere else) from load time or an earlier run.
+// (the clauses are in contracts_c04_verif.go and carry C04, C15 and C16.)
